@@ -244,6 +244,14 @@ func (vc *VC) applyContract(info *calleeInfo, args []Term, argTypes []types.Type
 			vc.oblige("pre", fmt.Sprintf("%s@call %s", labelOr(c.Label, i), site), ctx.formula(c.E), pos)
 		}
 	}
+	for _, c := range d.Clauses {
+		if c.Kind == "panics" {
+			// the callee panics exactly under its declared condition: the call returns only otherwise. The
+			// propagation of a declared panic through the callers is not tracked (listed as an assumption).
+			vc.assume(not(ctx.formula(c.E)))
+			vc.assumes["declared panic of "+info.name+" ("+c.Label+"): its propagation to the recovering caller is not tracked by contracts"] = true
+		}
+	}
 	// 2. frame
 	vc.havocNext()
 	for _, c := range d.Clauses {
@@ -326,7 +334,30 @@ func shortCallee(name string) string {
 func (vc *VC) havocNext() {
 	n := vc.fresh("next", sInt)
 	vc.assume(app(">=", n, vc.next(vc.cur)))
+	// the allocation counter never falls below its entry value: stated directly, so that freshness
+	// arguments need not walk the chain of intermediate states
+	for _, a := range vc.nextAnchors() {
+		vc.assume(app(">=", n, a))
+	}
 	vc.cur.comps[compNext] = n
+}
+
+// nextAnchors: the allocation counter at function entry and at the head of every enclosing loop. The
+// counter only grows, so every later value is stated to be at least each of them (directly: freshness
+// and validity arguments then need not walk the chain of intermediate states).
+func (vc *VC) nextAnchors() []Term {
+	var out []Term
+	if vc.entry != nil {
+		out = append(out, vc.next(vc.entry))
+	}
+	if b := vc.tagBlock(); b != nil {
+		for _, li := range vc.loops {
+			if li.headSt != nil && li.blocks[b] {
+				out = append(out, vc.next(li.headSt))
+			}
+		}
+	}
+	return out
 }
 
 func (vc *VC) havocTarget(tg modTarget) {
@@ -619,6 +650,7 @@ func (vc *VC) rangeStart(x *ssa.Range) {
 		vc.assumes["range over a map: the map is not modified while it is iterated"] = true
 	case *types.Basic:
 		vc.setComp(vc.cur, name+".pos", sInt, "0")
+		vc.setComp(vc.cur, name+".k", sInt, "0")
 		vc.rangeOf[x] = &rangeInfo{x: x.X}
 	default:
 		panic(unsupported("range over " + x.X.Type().String()))
@@ -656,7 +688,17 @@ func (vc *VC) rangeNext(x *ssa.Next) {
 	b := app("str.to_code", app("str.at", s, pos))
 	vc.assume(implies(ok, and(app("<=", "1", w), app("<=", w, "4"), app("<=", app("+", pos, w), app("str.len", s)),
 		ite(app("<", b, "128"), and(eq(r, b), eq(w, "1")), and(app(">=", r, "128"), app("<=", r, "1114111"))))))
+	// UTF-8: the bytes of a multi-byte sequence (and a byte decoded as RuneError, width 1) are all >= 0x80
+	vc.assume(implies(ok, fmt.Sprintf("(forall ((j Int)) (! (=> (and (< %s j) (< j (+ %s %s))) (>= (str.to_code (str.at %s j)) 128)) :pattern ((str.at %s j))))", pos, pos, w, s, s)))
+	vc.assume(app(">=", pos, "0"))
 	vc.setComp(vc.cur, name+".pos", sInt, ite(ok, app("+", pos, w), pos))
+	// the same iteration seen as a walk over []rune(s): the k-th iteration yields runeAt(s, k), and there are
+	// runeLen(s) of them ("rangecount" in contracts)
+	k := vc.comp(vc.cur, name+".k", sInt)
+	vc.reg.decl("ys.x.runeLen", "(declare-fun ys.x.runeLen (String) Int)")
+	vc.reg.decl("ys.x.runeAt", "(declare-fun ys.x.runeAt (String Int) Int)")
+	vc.assume(and(app(">=", k, "0"), eq(ok, app("<", k, app("ys.x.runeLen", s))), implies(ok, eq(r, app("ys.x.runeAt", s, k)))))
+	vc.setComp(vc.cur, name+".k", sInt, ite(ok, app("+", k, "1"), k))
 	vc.tuples[x] = []Term{ok, pos, r}
 }
 
